@@ -344,7 +344,7 @@ def validate_ledgers(ctx, traces, batch=700):
     return verdicts
 
 
-INVS = "INVARIANTS TypeOK Released SwarmClosed"
+INVS = "INVARIANTS TypeOK Released SwarmClosed NoOrphan"
 QUIRKS = ["tracing", "nilpeer", "forcepnet", "skip"]
 
 
@@ -383,7 +383,13 @@ def design_level(ctx, thorough):
         out["instances"].append({"instance": "A with CodeQuirks=%s (Released expected to fail)" % q, "violated": r.violated})
         if r.ok or r.violated != "Released":
             raise MachineryError("CodeQuirks %s: expected Released to be violated, got %s" % (q, r.violated))
-    for probe in ("ReachQueuedDead", "ReachCloseRace", "ReachStreamReset"):
+    # doClose forgetting the stream map last (snapshot / reset / forget as three steps): a stream admitted in
+    # the window is in nobody's snapshot - TLC must find NoOrphan violated
+    r = mc("A", "TRUE", False, quirks='{"lateforget"}')
+    out["instances"].append({"instance": "A with CodeQuirks=lateforget (NoOrphan expected to fail)", "violated": r.violated})
+    if r.ok or r.violated != "NoOrphan":
+        raise MachineryError("CodeQuirks lateforget: expected NoOrphan to be violated, got %s" % r.violated)
+    for probe in ("ReachQueuedDead", "ReachCloseRace", "ReachStreamReset", "ReachAdmitDuringClose"):
         r = mc("A", "TRUE", False, invs="INVARIANTS " + probe)
         if r.ok or r.violated != probe:
             raise MachineryError("vacuity guard %s not reachable" % probe)
